@@ -7,8 +7,12 @@
   * spec -> code: `table(...)` lets TLC compute an exhaustive case table (spec/BitsTable.tla) and
     `check_rows` runs every row on the real API; `graph_walk` model-checks the BitsObj state machine
     and replays every transition of its state graph;
+  * spec -> code, object identity: `heap_walk` covers the complete state graph of spec/BitsHeap.tla by one
+    continuous walk on real objects (each the very result of the real call), `heap_simulate` replays
+    `-simulate` behaviours of larger heaps; all objects are compared after every action;
   * code -> spec: `validate(...)` sends logged traces to spec/BitsObjTrace.tla, resuming a trace after
-    a reported violation so that known defects do not hide the rest of it;
+    a reported violation so that known defects do not hide the rest of it; `Recorder(heap=True)` logs
+    sequences over several live objects (results bound to variables, modified in place later);
   * BV self check runner, canaries, violation keys.
 """
 import copy
